@@ -29,7 +29,7 @@ EMB_THOROUGH = EMB_QUICK + [
     (32767, 32768, -32768, -32769),
     (-(2 ** 31), -(2 ** 31) - 1, -1, 0),
     (2 ** 33, 2 ** 33 + 1, 2 ** 63 - 2, 0),
-    (4, 2 ** 63 - 1, 2 ** 62, 2 ** 61),
+    (4, 2 ** 63 - 2, 2 ** 62, 2 ** 61),
 ]
 
 U64_ONLY = set()
